@@ -168,6 +168,15 @@ AddrWire(a) ==
        [] IsV6(a)  -> F("ip6:" \o a.dk, 16, Free)
        [] OTHER    -> F("junk", BadAtypJunk - 2, Free))
     \o F("port", 2, a.port)
+\* the first k bytes of a field list (k < 0: all of it): what a peer that holds the key seals when it lies about
+\* the lengths inside the sealed part ("truncated here" / "absent" inside an authenticated body)
+RECURSIVE Trunc(_, _)
+Trunc(w, k) == IF k < 0 THEN w
+               ELSE IF w = <<>> \/ k = 0 THEN <<>>
+               ELSE IF w[1].n <= k THEN <<w[1]>> \o Trunc(Tail(w), k - w[1].n)
+               ELSE <<[w[1] EXCEPT !.n = k]>>
+RECURSIVE FLen(_)
+FLen(w) == IF w = <<>> THEN 0 ELSE w[1].n + FLen(Tail(w))
 Req(a) == [tk |-> IF IsDom(a) THEN "dom" ELSE IF IsV4(a) THEN "ip4" ELSE "ip6", dlen |-> a.dlen, dk |-> a.dk,
            port |-> a.port, fallback |-> FALSE]
 NoReq == [tk |-> "", dlen |-> 0, dk |-> "", port |-> 0, fallback |-> FALSE]
@@ -237,7 +246,10 @@ EihLen(mm) == IF mm.eih THEN IdHdr ELSE 0
 \*      salt, auth, type, ts, vk, vauth, a, padlen, pl, tail]
 \* vk: relation between the length field of the fixed header and the sealed variable header that follows:
 \*     "exact", "zero" (length 0, empty sealed chunk), "less" (field one smaller), "more" (field one larger)
-SsVarLen(mm) == IF mm.vk = "zero" THEN 0 ELSE AddrLen(mm.a) + 2 + mm.padlen + mm.pl    \* plaintext bytes the peer seals
+\* icut >= 0: the peer seals only the first icut bytes of the variable-length header
+SsVarWire(mm) == IF mm.vk = "zero" THEN <<>>
+                 ELSE Trunc(AddrWire(mm.a) \o F("padlen", 2, mm.padlen) \o F("padding", mm.padlen, Free) \o F("payload", mm.pl, Free), mm.icut)
+SsVarLen(mm) == FLen(SsVarWire(mm))                                            \* plaintext bytes the peer seals
 SsVhlen(mm) == CASE mm.vk = "less" -> SsVarLen(mm) - 1 [] mm.vk = "more" -> SsVarLen(mm) + 1 [] OTHER -> SsVarLen(mm)
 SsTcpHead(mm) == mm.ursp + mm.saltlen + EihLen(mm) + TcpReqFixed + TagSize
 SsTcpSrv(mm) ==
@@ -249,14 +261,12 @@ SsTcpSrv(mm) ==
     If(mm.vauth # "ok" \/ mm.vk \in {"less", "more"}, Rej("aead")) \o
     Sub(SsVhlen(mm)) \o
     \* ParseTCPRequestVariableLengthHeader: address, then "len(b) <= 2" and the padding bound
-    (IF mm.vk = "zero" THEN Chk(2) ELSE
-       CAFS(0, mm.a) \o Chk(AddrLen(mm.a) + 3) \o Tch(AddrLen(mm.a) + 2) \o Chk(AddrLen(mm.a) + 2 + mm.padlen)) \o Acc
+    CAFS(0, mm.a) \o Chk(AddrLen(mm.a) + 3) \o Tch(AddrLen(mm.a) + 2) \o Chk(AddrLen(mm.a) + 2 + mm.padlen) \o Acc
 SsTcpSrvWire(mm) ==
     F("ursp:" \o (IF mm.urspok THEN "ok" ELSE "bad"), mm.ursp, Free) \o F("salt:" \o mm.salt, mm.saltlen, Free) \o
     If(mm.eih, F("eih:" \o mm.user, IdHdr, Free)) \o
     F("type", 1, mm.type) \o F("ts", 8, mm.ts) \o F("vhlen", 2, SsVhlen(mm)) \o F("tag:" \o mm.auth, TagSize, Free) \o
-    If(mm.vk # "zero", AddrWire(mm.a) \o F("padlen", 2, mm.padlen) \o F("padding", mm.padlen, Free) \o F("payload", mm.pl, Free)) \o
-    F("tag:" \o mm.vauth, TagSize, Free) \o F("tail", mm.tail, Free)
+    SsVarWire(mm) \o F("tag:" \o mm.vauth, TagSize, Free) \o F("tail", mm.tail, Free)
 
 \* TCP client: ShadowStreamClientConn.initRead + readFirstPayloadChunk (the first Read of the response).
 \* mm = [saltlen, ursp, urspok, seg, allowseg, auth, type, ts, rsalt, plen, pauth, tail]
@@ -283,8 +293,13 @@ SsChunkWire(mm) ==
 \* ParseUDPClientMessageHeader.  mm = [eih, user, pid, auth, type, ts, padlen, a, pl]
 SsUdpBody(mm) == UdpSep + EihLen(mm)
 \* the AEAD body is the rest of the datagram: it opens only when the datagram is exactly what the peer sealed
-SsUdpSrvTotal(mm) == SsUdpBody(mm) + UdpCliFixed + mm.padlen + AddrLen(mm.a) + mm.pl + TagSize
-SsUdpCliTotal(mm) == UdpSep + UdpSrvFixed + mm.padlen + AddrLen(mm.a) + mm.pl + TagSize
+\* icut >= 0: the peer seals only the first icut bytes of the message
+SsUdpSrvInner(mm) == Trunc(F("type", 1, mm.type) \o F("ts", 8, mm.ts) \o F("padlen", 2, mm.padlen) \o F("padding", mm.padlen, Free) \o
+                           AddrWire(mm.a) \o F("payload", mm.pl, Free), mm.icut)
+SsUdpCliInner(mm) == Trunc(F("type", 1, mm.type) \o F("ts", 8, mm.ts) \o F("csid:" \o mm.csid, 8, Free) \o F("padlen", 2, mm.padlen) \o
+                           F("padding", mm.padlen, Free) \o AddrWire(mm.a) \o F("payload", mm.pl, Free), mm.icut)
+SsUdpSrvTotal(mm) == SsUdpBody(mm) + FLen(SsUdpSrvInner(mm)) + TagSize
+SsUdpCliTotal(mm) == UdpSep + FLen(SsUdpCliInner(mm)) + TagSize
 SsUdpSrv(mm, hv) ==
     Chk(UdpSep) \o Tch(UdpSep) \o                               \* SessionInfo: block-decrypt the separate header
     Chk(SsUdpBody(mm)) \o Tch(SsUdpBody(mm)) \o                   \* NewUnpacker: identity header
@@ -298,8 +313,7 @@ SsUdpSrv(mm, hv) ==
     CAFS(UdpCliFixed + mm.padlen, mm.a) \o Acc
 SsUdpSrvWire(mm) ==
     F("sid", 8, Free) \o F("pid:" \o mm.pid, 8, Free) \o If(mm.eih, F("eih:" \o mm.user, IdHdr, Free)) \o
-    F("type", 1, mm.type) \o F("ts", 8, mm.ts) \o F("padlen", 2, mm.padlen) \o F("padding", mm.padlen, Free) \o
-    AddrWire(mm.a) \o F("payload", mm.pl, Free) \o F("tag:" \o mm.auth, TagSize, Free)
+    SsUdpSrvInner(mm) \o F("tag:" \o mm.auth, TagSize, Free)
 
 \* UDP client: ShadowPacketClientUnpacker.UnpackInPlace, ParseUDPServerMessageHeader.
 \* mm = [sess, pid, auth, type, ts, csid, padlen, a, pl]
@@ -311,9 +325,7 @@ SsUdpCli(mm, hv) ==
     Tch(17) \o If(mm.csid # "ok", Rej("csid")) \o Tch(UdpSrvFixed) \o Chk(UdpSrvFixed + mm.padlen) \o
     APFS(UdpSrvFixed + mm.padlen, mm.a) \o Acc
 SsUdpCliWire(mm) ==
-    F("sid:" \o mm.sess, 8, Free) \o F("pid:" \o mm.pid, 8, Free) \o
-    F("type", 1, mm.type) \o F("ts", 8, mm.ts) \o F("csid:" \o mm.csid, 8, Free) \o F("padlen", 2, mm.padlen) \o
-    F("padding", mm.padlen, Free) \o AddrWire(mm.a) \o F("payload", mm.pl, Free) \o F("tag:" \o mm.auth, TagSize, Free)
+    F("sid:" \o mm.sess, 8, Free) \o F("pid:" \o mm.pid, 8, Free) \o SsUdpCliInner(mm) \o F("tag:" \o mm.auth, TagSize, Free)
 
 -----------------------------------------------------------------------------
 (* HTTP proxy.  httpproxy/server.go ServerHandle, httpproxy/client.go ClientConnect.  net/http    *)
